@@ -644,7 +644,7 @@ class FxBuilder(Builder):
             ops = tuple(self.ev_operand(fr, o) for o in rv[2])
             if a["k"] == "adt":
                 return self.simp(N(("agg", a["path"], a["vname"], ops)))
-            return ("agg", a["k"], a.get("path", "") if a["k"] == "closure" and self.ai_mode else "", ops)
+            return ("agg", a["k"], a.get("path", "") if a["k"] == "closure" else "", ops)
         if k == "repeat":
             return ("repeat", self.ev_operand(fr, rv[1]), rv[2])
         return ("unknown", str(rv[0]))
@@ -873,6 +873,96 @@ class FxBuilder(Builder):
                                    tuple((lab, s[key]) for lab, s in zip(state_labels, states)))
         return merged
 
+    def _closure_env(self, callee, closure_value):
+        """First argument of a closure body: the closure itself (FnOnce) or a reference to it (Fn / FnMut)."""
+        t = self.facts.types[callee.body.locals[1]] if len(callee.body.locals) > 1 else None
+        if t is not None and t["k"] == "ref":
+            return ("ref", closure_value)
+        return closure_value
+
+    def _array_ops(self, fr, base, args, hidden, site, nodes):
+        """Literal fixed-size arrays: `[a, b].map(f)`, `arr.iter()`, and the searching consumers `find`/`any`/`all`/`position`
+        over such an iterator, expanded element by element (what the loop they abbreviate would do)."""
+        if not base or not args:
+            return None
+        last = base.split("::")[-1]
+        clos = [h for h in (hidden or []) if h in self.facts.fns]
+
+        def callee_of(fnv):
+            if fnv[0] == "fn" and fnv[1] in self.facts.fns:
+                return self.facts.fns[fnv[1]], (lambda p: (p,))
+            if len(clos) == 1:
+                c = self.facts.fns[clos[0]]
+                env = self._closure_env(c, fnv)
+                return c, (lambda p: (env, p))
+            return None, None
+        if fr.depth >= self.max_depth:
+            return None
+        if last == "map" and base.startswith("core::array::<impl [T; N]>") and len(args) == 2 and args[0][0] == "agg" and args[0][1] == "array":
+            callee, mk = callee_of(args[1])
+            if callee is None:
+                return None
+            outs = []
+            for el in args[0][3]:
+                sub, cret = self._subtree(callee, mk(el), fr.depth + 1)
+                if cret is None:
+                    return None
+                nodes.append(("inlined", callee.id, mk(el), sub, site, cret))
+                outs.append(cret)
+            return ("agg", "array", "", tuple(outs))
+        if last == "iter" and base.startswith("core::slice::<impl [T]>") and len(args) == 1:
+            a = args[0]
+            while a[0] in ("ref", "cast") :
+                a = a[1] if a[0] == "ref" else a[2]
+            if a[0] == "agg" and a[1] == "array":
+                return ("arrayiter", tuple(("ref", el) for el in a[3]), 0)
+            return None
+        if last in ("find", "any", "all", "position") and "iterator::Iterator" in base and len(args) == 2:
+            al = self._arrayiter_local(args[0])
+            if al is None:
+                return None
+            lf, l = al
+            it = lf.state[l]
+            elems = it[1][it[2]:]
+            callee, mk = callee_of(args[1])
+            if callee is None or len(elems) > 16:
+                return None
+            OPT = "core::option::Option"
+            # nested: test element i; on a hit stop, else go on with element i+1
+            base_state = dict(fr.state)
+            saved_branch = self.branch
+            first_nw = len(self.writes)
+            hit_is_true = last != "all"
+
+            def build(i):
+                if i == len(elems):
+                    end = {"find": ("agg", OPT, "None", ()), "position": ("agg", OPT, "None", ()),
+                           "any": ("const", 0, "bool"), "all": ("const", 1, "bool")}[last]
+                    return [], end
+                el = elems[i]
+                arg = ("ref", el) if last == "find" else el
+                sub, cret = self._subtree(callee, mk(arg), fr.depth + 1)
+                if cret is None:
+                    raise ValueError
+                sw = (fr.fn.id, site.bi, fr.id, first_nw, "search", i)
+                rest_nodes, rest_val = build(i + 1)
+                hit_val = {"find": ("agg", OPT, "Some", (el,)), "position": ("agg", OPT, "Some", (("const", i, "usize"),)),
+                           "any": ("const", 1, "bool"), "all": ("const", 0, "bool")}[last]
+                hit_lab, go_lab = ("else", (0,)) if hit_is_true else ((0,), "else")
+                ns = [("inlined", callee.id, mk(arg), sub, site, cret),
+                      ("switch", cret, {hit_lab: [], go_lab: rest_nodes}, site, (0,), sw)]
+                return ns, ("phi", sw, "_" + last, ((hit_lab, hit_val), (go_lab, rest_val)))
+            try:
+                ns, val = build(0)
+            except ValueError:
+                fr.state = base_state
+                return None
+            self.branch = saved_branch
+            nodes.extend(ns)
+            lf.state[l] = ("arrayiter", it[1], len(it[1]))
+            return val
+        return None
+
     def _combinator(self, fr, base, args, hidden, site, nodes):
         """`x.map(f)`, `x.map_err(f)`, `x.and_then(f)`, `x.filter(f)` on an Option/Result whose variant is not known: modelled as
         the `match` they abbreviate - a switch on the discriminant with the closure spliced into the branch that calls it."""
@@ -894,7 +984,8 @@ class FxBuilder(Builder):
             mk = lambda p: (p,)
         elif len(clos) == 1:
             callee = self.facts.fns[clos[0]]
-            mk = lambda p: (fnv, p)
+            env = self._closure_env(callee, fnv)
+            mk = lambda p: (env, p)
         else:
             return None
         OPT, RES = "core::option::Option", "core::result::Result"
@@ -1017,6 +1108,8 @@ class FxBuilder(Builder):
         ret = None
         spliced = False
         veq = self._value_eq_call(name, args)
+        if veq is None and "ext" in f:
+            veq = self._array_ops(fr, base, args, f.get("hidden") or [], site, nodes)
         if veq is None and "ext" in f:
             veq = self._combinator(fr, base, args, f.get("hidden") or [], site, nodes)
         if veq is None:
